@@ -26,6 +26,14 @@ func (sc snappyCodec) Encode(src, dst []byte) ([]byte, uint32) {
 }
 
 func (sc snappyCodec) Decode(src, dst []byte) ([]byte, uint32, error) {
+	// snappy allocates the length that the chunk announces before decoding it.
+	// A snappy element of 3 bytes produces at most 64 bytes, so anything
+	// announcing a bigger expansion than that is corrupt.
+	if n, err := snappy.DecodedLen(src); err != nil {
+		return nil, 0, err
+	} else if n > 32*len(src) {
+		return nil, 0, snappy.ErrCorrupt
+	}
 	chunk, err := snappy.Decode(dst[len(dst):cap(dst)], src)
 	if err != nil {
 		return nil, 0, err
